@@ -1500,6 +1500,10 @@ const SCENARIOS: &[(&str, &[(&str, &[u8])], Option<(&str, u32, u32, &str)>)] = &
 	("occupied-cursor", &[("main.asm", b".addr 0x110;\nNOP;\n.addr 0x108;\n.include \"fill.asm\";\n  .addr 0x110;\nx:\n"), ("fill.asm", b".du32 2;\n.du32 3;\n")], Some(("main.asm", 5, 3, "occupied.00000110"))),
 	("occupied-cursor", &[("main.asm", b".addr 0xFFFFFFFE;\n.du16 1;\n.addr 0xFFFFFFFF;\n")], Some(("main.asm", 3, 1, "occupied.ffffffff"))),
 	("occupied-cursor", &[("main.asm", b".addr 0xFFFFFFFF;\n.du8 1;\n.addr 0xFFFFFFFF;\n.addr 0x100;\nNOP;\n")], Some(("main.asm", 3, 1, "occupied.ffffffff"))),
+	// one file included by two siblings (diamond) and twice in a row: every occurrence is assembled
+	("same-file-twice", &[("main.asm", b".addr 0x100;\n.include \"b.asm\";\n.include \"c.asm\";\n"), ("b.asm", b".include \"common.asm\";\n.du8 K9;\n"), ("c.asm", b".include \"common.asm\";\n.du8 K9 + 1;\n"),
+		("common.asm", b".const K9, 7;\n.export K9;\nNOP;\n")], None),
+	("same-file-twice", &[("main.asm", b".addr 0x100;\n.include \"t.asm\";\n.include \"t.asm\";\n.include \"./t.asm\";\n"), ("t.asm", b"x9:\n.du32 x9;\n")], None),
 	// a name published twice across an include: the included file re-publishes a name the includer already owns
 	("duplicate-across-include", &[("main.asm", b".addr 0x100;\n.const x9, 1;\n.include \"c.asm\";\n.du8 x9;\n"), ("c.asm", b".const x9, 2;\n.global x9;\n")], Some(("c.asm", 2, 1, "duplicate"))),
 	("duplicate-across-include", &[("main.asm", b".addr 0x100;\n.const x9, 1;\n.include \"c.asm\";\n.du8 x9;\n"), ("c.asm", b".const x9, 2;\n.export x9;\n")], Some(("c.asm", 2, 1, "duplicate"))),
